@@ -8,6 +8,7 @@ package accumulation
 //   for x == nil { S0 }   for x != nil { S0 }   condition loops; a body that does not change the condition
 //                                           diverges, i.e. nothing after the loop is reached on that path
 //   switch { case x == nil: S0; default: S0 }      switch x { case nil: S0; default: S0 }
+//   switch { case x != nil && flagK: _ = *x; default: S0 }     switch { case x == nil || flagK: S0; default: _ = *x }
 //   t = new(T) | t = nil | _ = t.val() | _ = t.safe()   with  type T int, val dereferencing its receiver and safe
 //                                           checking it first
 // Semantics are built as SMT terms exactly as in Harness_P01.
@@ -57,7 +58,7 @@ func p01SimpleText(k int) string {
 }
 
 func (g *p01Gen) structured() {
-	kind := ndChoice("structured", 9)
+	kind := ndChoice("structured", 11)
 	switch kind {
 	case 0: // counted loop
 		k := ndChoice("body", g.simple)
@@ -104,6 +105,26 @@ func (g *p01Gen) structured() {
 		wasNil := g.x
 		g.applySimple(k1, l1, wasNil)
 		g.applySimple(k2, l2, ndNot(wasNil))
+	case 9: // tagless switch, conjunction: the first arm is nil-checked, the default arm is not
+		k2 := ndChoice("arm_default", g.simple)
+		f, fv := g.flag()
+		g.emit("\tswitch {")
+		g.emit("\tcase x != nil && " + f + ":")
+		g.emit("\t\t_ = *x")
+		g.emit("\tdefault:")
+		l2 := g.emit("\t\t" + p01SimpleText(k2))
+		g.emit("\t}")
+		g.applySimple(k2, l2, ndNot(ndAnd(ndNot(g.x), fv)))
+	case 10: // tagless switch, disjunction: the default arm is nil-checked, the first arm is not
+		k1 := ndChoice("arm_first", g.simple)
+		f, fv := g.flag()
+		g.emit("\tswitch {")
+		g.emit("\tcase x == nil || " + f + ":")
+		l1 := g.emit("\t\t" + p01SimpleText(k1))
+		g.emit("\tdefault:")
+		g.emit("\t\t_ = *x")
+		g.emit("\t}")
+		g.applySimple(k1, l1, ndOr(g.x, fv))
 	case 5:
 		g.emit("\tt = new(T)")
 		g.t = false
@@ -118,6 +139,22 @@ func (g *p01Gen) structured() {
 	default:
 		g.emit("\t_ = t.safe()")
 	}
+}
+
+// guardedReturn emits a nil-checked dereference whose branch leaves the function, in one of three spellings.
+func (g *p01Gen) guardedReturn() {
+	switch ndChoice("guard_spelling", 3) {
+	case 0:
+		g.emit("\tif x != nil {")
+	case 1:
+		g.emit("\tif nil != x {")
+	default:
+		g.emit("\tif !(x == nil) {")
+	}
+	g.emit("\t\t_ = *x")
+	g.emit("\t\treturn")
+	g.emit("\t}")
+	g.live = ndAnd(g.live, g.x)
 }
 
 func Harness_P01L() {
@@ -146,13 +183,19 @@ func Harness_P01L() {
 	g.emit("func Entry() {")
 	g.emit("\tvar x, y *int")
 	g.emit("\tvar t *T")
-	switch ndChoice("order", ndParam("ORDERS", 3)) {
+	switch ndChoice("order", ndParam("ORDERS", 5)) {
 	case 0:
 		g.structured()
 		g.stmt(compound)
 	case 1:
 		g.stmt(compound)
 		g.structured()
+	case 2:
+		g.guardedReturn()
+		g.structured()
+	case 3:
+		g.structured()
+		g.guardedReturn()
 	default:
 		g.structured()
 		g.structured()
